@@ -655,6 +655,19 @@ def _items(tree, body, rel, config, depth) -> list:
             out.extend(_items(tree, n.body, rel, config, depth))
         elif t is nodes.Macro:
             continue        # expanded at its call sites
+        elif t is nodes.With and all(isinstance(tg, nodes.Name) for tg in n.targets) and len(n.targets) == len(n.values):
+            # `{% with name = expr %} body {% endwith %}`: the body with `name` standing for `expr` (a scoped {% set %}); left as an
+            # opaque block when the body re-binds a name the expression mentions (the expression would change its meaning)
+            inner = dict(config)
+            for tg in n.targets:
+                inner.pop(tg.name, None)
+            body2 = _items(tree, n.body, rel, inner, depth)
+            env = {tg.name: jx(val) for tg, val in zip(n.targets, n.values)}
+            if any(_binds(body2, nm) for v_ in env.values() for nm in names_of(v_)):
+                out.append(("other", "With", n.lineno, rel))
+                out.extend(body2)
+            else:
+                out.extend(_subst_items(body2, env))
         elif t in (nodes.CallBlock, nodes.FilterBlock, nodes.With, nodes.Scope):
             out.append(("other", t.__name__, n.lineno, rel))
             body2 = getattr(n, "body", None)
